@@ -1,5 +1,7 @@
 import WhVerif.Util.Proto
 import WhVerif.Model.C15
+import WhVerif.Model.C15Glue
+import WhVerif.Model.C15Solve
 namespace WhVerif.Driver.C15
 open Lean WhVerif.Proto WhVerif.C15
 
@@ -42,8 +44,136 @@ def parseBp (j : Json) : Option (Breakpoint Float) := do
     some ⟨← asNat? p, ← natList? hs, Float.ofBits (UInt64.ofNat bits)⟩
   | _ => none
 
+
+/-! ### glue / solver-structure ops -/
+
+def parseRec (j : Json) : Option VRec := do
+  match ← asArr? j with
+  | [p, na, sa, sf, gt, ph] =>
+    some ⟨← asNat? p, ← asNat? na, ← asBool? sa, ← asBool? sf, ← intList? gt, ← asBool? ph⟩
+  | _ => none
+
+def parseCfg (j : Json) : Option Cfg := do
+  let c ← getObj? j "cfg"
+  some ⟨← getNat? c "ploidy", ← getBool? c "mav", ← getBool? c "only_snvs", ← getNat? c "max_alleles",
+        ← getNat? c "max_ploidy", ← getNat? c "min_overlap"⟩
+
+def parseRead (j : Json) : Option PRead := do
+  (← asArr? j).mapM (fun v => do
+    match ← asArr? v with
+    | [p, a] => some (← asNat? p, ← asInt? a)
+    | _ => none)
+
+def recJson (r : VRec) : Json := Json.arr #[ofNat r.pos, ofIntList r.gt]
+def dictJson (d : List (Allele × Nat)) : Json := ofList (fun e => Json.arr #[ofInt e.1, ofNat e.2]) d
+def callJson (o : OutCall) : Json := Json.arr #[ofIntList o.gt, Json.bool o.phased, ofOptNat o.ps]
+
+def bpJson (b : Breakpoint Float) : Json :=
+  Json.arr #[ofNat b.position, ofNatList b.haplotypes, ofNat b.confidence.toBits.toNat]
+
+/-- `k * pow((k - 2) / k, i) < 0.02` in IEEE doubles -/
+def smallF (k i : Nat) : Bool :=
+  decide (k.toFloat * Float.pow ((k.toFloat - 2.0) / k.toFloat) i.toFloat < 0.02)
+
+def parseSub (j : Json) : Option (List Nat × List Nat × List (Breakpoint Float)) := do
+  match ← asArr? j with
+  | [snps, ts, bps] => some (← natList? snps, ← natList? ts, ← (← asArr? bps).mapM parseBp)
+  | _ => none
+
+def parseBlock (j : Json) : Option (BlockBps Float) := do
+  match ← asArr? j with
+  | [n, bps] => some ⟨← asNat? n, ← (← asArr? bps).mapM parseBp⟩
+  | _ => none
+
+def parseStep (j : Json) : Option (List Nat × List Int) := do
+  match ← asArr? j with
+  | [ts, sub] => some (← natList? ts, ← intList? sub)
+  | _ => none
+
+def parseScored (j : Json) : Option (List Nat × Float) := do
+  match ← asArr? j with
+  | [k, v] => some (← natList? k, Float.ofBits (UInt64.ofNat (← asNat? v)))
+  | _ => none
+
+def handleGlue (op : String) (j : Json) : Option Json :=
+  if op == "c15.readtable" then
+    match parseCfg j, (getList? j "recs").bind (·.mapM parseRec) with
+    | some c, some recs =>
+      match readTable c recs with
+      | .ok t => some (Json.mkObj [("ok", ofList recJson t)])
+      | .error .notSorted => some (Json.mkObj [("error", Json.str "not-sorted")])
+      | .error .ploidy => some (Json.mkObj [("error", Json.str "ploidy")])
+    | _, _ => some badInput
+  else if op == "c15.glue" then
+    -- table: rows of the variant table of the chromosome (for the sample); reads: what the BAM reader returned
+    match parseCfg j, (getList? j "table").bind (·.mapM parseRec), (getList? j "reads").bind (·.mapM parseRead) with
+    | some c, some table, some reads =>
+      let het := ofList recJson (phasable table)
+      match glue c table reads with
+      | .fewVariants => some (Json.mkObj [("kind", Json.str "few-variants"), ("het", het)])
+      | .noReads => some (Json.mkObj [("kind", Json.str "no-reads"), ("het", het)])
+      | .solve cols rows gl kept =>
+        some (Json.mkObj [("kind", Json.str "solve"), ("het", het), ("cols", ofNatList cols), ("rows", ofList recJson rows),
+          ("genotypes", ofList dictJson gl), ("nkept", ofNat kept.length),
+          ("expanded", ofList (fun d => ofIntList (dictExpand d)) gl)])
+    | _, _, _ => some badInput
+  else if op == "c15.write" then
+    -- recs of the chromosome, cols + haps (result columns), comps: [[key, value]…] of the component dict
+    match parseCfg j, getBool? j "repaired", (getList? j "recs").bind (·.mapM parseRec), getNatList? j "cols",
+          (getObj? j "haps").bind intListList?, (getObj? j "comps").bind natListList? with
+    | some c, some rep, some recs, some cols, some haps, some comps =>
+      let lookup := fun p => (comps.find? (fun e => e.head? == some p)).bind (fun e => e.getD 1 0 |> some)
+      let ph := phasesOf c.mav cols haps
+      some (Json.mkObj [("calls", ofList callJson (writeLoop rep c ph lookup none recs)),
+                        ("phases", ofList (fun e => Json.arr #[ofNat e.1, ofIntList e.2]) ph)])
+    | _, _, _, _, _, _ => some badInput
+  else if op == "c15.cutthreshold" then
+    some (ofList (fun k => Json.arr #[ofNat (cutThreshold smallF k false), ofNat (cutThreshold smallF k true)])
+      (List.range' 2 14))
+  else if op == "c15.blockstarts" then
+    match (getObj? j "reads").bind natListList?, getNat? j "num_vars", getNat? j "ploidy", getBool? j "single_linkage",
+          (getObj? j "genotypes").bind natListList? with
+    | some reads, some n, some k, some sl, some gl =>
+      let starts := computeBlockStarts smallF reads n k sl
+      some (Json.mkObj [("starts", ofNatList starts), ("blocks", ofList (fun se => ofNatList [se.1, se.2]) (blocks starts n)),
+                        ("slices", ofList ofNatListList ((blocks starts n).map (slice gl)))])
+    | _, _, _, _, _ => some badInput
+  else if op == "c15.singleton" then
+    match getIntList? j "gv" with
+    | some gv => some (ofIntList (singletonCol gv))
+    | _ => some badInput
+  else if op == "c15.writeback" then
+    -- col: column after threading; steps: [[thread_set, sub-result column]…] in the order of the sub-instances
+    match getIntList? j "col", (getList? j "steps").bind (·.mapM parseStep) with
+    | some col, some steps =>
+      let out := steps.foldl (fun c s => assign c s.1 s.2) col
+      let used := steps.flatMap (·.1)
+      some (Json.mkObj [("out", ofIntList out), ("subgenotypes", ofList (fun s => ofIntList (extractPerm s.1 col)) steps),
+                        ("disjoint", Json.bool ((used.eraseDups.length == used.length) && used.all (fun t => decide (t < col.length))))])
+    | _, _ => some badInput
+  else if op == "c15.integrate" then
+    match (getObj? j "threads").bind natListList?, (getList? j "subs").bind (·.mapM parseSub) with
+    | some threads, some subs =>
+      some (Json.mkObj [("find", ofList bpJson (findBreakpoints (0.0 : Float) threads)),
+                        ("out", ofList bpJson (integrateBreakpoints (0.0 : Float) (· * ·) threads subs))])
+    | _, _ => some badInput
+  else if op == "c15.aggregate" then
+    match getNat? j "ploidy", getNatList? j "borders", (getList? j "blocks").bind (·.mapM parseBlock) with
+    | some k, some borders, some bl =>
+      some (Json.mkObj [("bps", ofList bpJson (aggregateBps (0.0 : Float) k borders 0 bl)), ("total", ofNat (totalCols bl))])
+    | _, _, _ => some badInput
+  else if op == "c15.assignments" then
+    -- lllh: per breakpoint the dict items in iteration order [[key, score bits]…]
+    match getNat? j "ploidy", (getList? j "lllh").bind (·.mapM (fun b => (asArr? b).bind (·.mapM parseScored))) with
+    | some k, some lllh =>
+      let choices := lllh.map (fun d => (firstMax (fun (a b : Float) => decide (a < b)) none d).getD [])
+      some (Json.mkObj [("choices", ofNatListList choices), ("assignments", ofNatListList (optimalAssignments k choices))])
+    | _, _ => some badInput
+  else none
+
 def handle (op : String) (j : Json) : Option Json :=
-  if op == "c15.force" then
+  if let some r := handleGlue op j then some r
+  else if op == "c15.force" then
     -- one column: col, gv (genotype expanded to a list of alleles), out (column returned by the real code)
     match getIntList? j "col", getIntList? j "gv", getIntList? j "out" with
     | some col, some gv, some out =>
